@@ -88,3 +88,31 @@ Example ex_unit :
   veqb (fst (integral_and_mean (relabel (affine (q 24 1) (q 7 1)) ex_s))) (vq 144 1) &&
   veqb (snd (integral_and_mean (relabel (affine (q 24 1) (q 7 1)) ex_s))) (vq 3 2) = true.
 Proof. vm_compute. reflexivity. Qed.
+
+(* ---- C18: the collection layer on [ex_s; ex_t; ex_s]: the operators, tables and matrices evaluate, the matrices are
+   3 x 3, and a duplicate member gives equal rows *)
+Require Import SC.Model.Arrays SC.Proofs.ArrayFacts.
+
+Example ex_arr_binop_ok :
+  match arr_binop (BArith OAdd) false [ex_s; ex_t; ex_s] (AoArray [ex_t; ex_t; ex_s]) with
+  | Ok rs => Nat.eqb (length rs) 3 | Err _ => false end = true.
+Proof. vm_compute. reflexivity. Qed.
+
+Example ex_arr_binop_reflected_scalar :
+  match arr_binop (BArith OSub) true [ex_s; ex_t] (AoScalar (vq 5 1)) with
+  | Ok [a; b] => veqb (sample a (q 1 1)) (vq 2 1)       (* 5 - ex_s(1) = 5 - 3 *)
+  | _ => false end = true.
+Proof. vm_compute. reflexivity. Qed.
+
+Example ex_arr_cov_ok :
+  match arr_cov [ex_s; ex_t; ex_s] (Some (q 0 1)) (Some (q 5 1)) with
+  | Ok M => Nat.eqb (length M) 3 && forallb (fun r => Nat.eqb (length r) 3) M &&
+            match entry M 0 1, entry M 1 2 with Some a, Some b => veqb a b | _, _ => false end
+  | Err _ => false end = true.
+Proof. vm_compute. reflexivity. Qed.
+
+Example ex_arr_corr_ok :
+  match arr_corr [ex_s; ex_t; ex_s] (Some (q 0 1)) (Some (q 5 1)) with
+  | Ok M => match entry M 0 0, entry M 0 2 with Some (Some a), Some (Some b) => Qceqb a 1 && Qceqb b 1 | _, _ => false end
+  | Err _ => false end = true.
+Proof. vm_compute. reflexivity. Qed.
